@@ -31,8 +31,10 @@ fn thread_cpu_ns() -> u64 {
 }
 
 /// Do CPU-bound threads get a core right now?  4 threads each burn 12 ms of *their own* CPU
-/// time; on a host with spare cores that takes 12-15 ms of wall time, on an oversubscribed one
-/// a multiple. `false` if any of them needed more than 3x.
+/// time; on a host with spare cores that takes 12-14 ms of wall time, on an oversubscribed one
+/// more. `false` if any of them needed more than 1.5x (a thread that gets two thirds of a core
+/// or less: the ratio bounds of C15 -- a computing task keeps a quarter of the wall time -- are
+/// already off at a 50 % share).
 pub fn cpu_available() -> bool {
     let hs: Vec<_> = (0..4)
         .map(|_| {
@@ -50,7 +52,7 @@ pub fn cpu_available() -> bool {
             })
         })
         .collect();
-    hs.into_iter().all(|h| h.join().map(|d| d < Duration::from_millis(36)).unwrap_or(false))
+    hs.into_iter().all(|h| h.join().map(|d| d < Duration::from_millis(18)).unwrap_or(false))
 }
 
 /// wake-ups are prompt and CPU-bound threads are not starved
